@@ -311,6 +311,7 @@ type Clause struct {
 	Label string
 	Expr  *SExpr
 	Src   string
+	Local bool // ensures-local: may mention local variables; proved on the body, not assumed at call sites
 }
 
 type LoopSpec struct {
@@ -392,7 +393,7 @@ func NewSpecs() *Specs {
 }
 
 var clauseKeywords = map[string]bool{"requires": true, "ensures": true, "modifies": true, "pure": true, "inline": true, "trusted": true,
-	"safety": true, "panics": true, "loop": true, "invariant": true, "decreases": true, "unroll": true, "attr": true, "noverify": true,
+	"safety": true, "panics": true, "ensures-local": true, "loop": true, "invariant": true, "decreases": true, "unroll": true, "attr": true, "noverify": true,
 	"vars": true, "assume": true, "let": true, "assert": true, "axiom": true, "at-call": true}
 
 // LoadSpecFile parses a contract file. pkgPath is the package the file's unqualified keys refer to ("" for shared spec files
@@ -565,7 +566,7 @@ func (S *Specs) LoadSpecFile(path, pkgPath string) error {
 			}
 			st.Expr = e
 			curLemma.Steps = append(curLemma.Steps, st)
-		case "requires", "ensures", "invariant", "decreases", "panics":
+		case "requires", "ensures", "ensures-local", "invariant", "decreases", "panics":
 			if cur == nil {
 				return fail(l.n, "%s outside func", kw)
 			}
@@ -580,6 +581,9 @@ func (S *Specs) LoadSpecFile(path, pkgPath string) error {
 			case "requires":
 				cur.Requires = append(cur.Requires, c)
 			case "ensures":
+				cur.Ensures = append(cur.Ensures, c)
+			case "ensures-local":
+				c.Local = true
 				cur.Ensures = append(cur.Ensures, c)
 			case "panics":
 				cur.Panics = append(cur.Panics, c)
